@@ -67,6 +67,8 @@ def obligations(run, visitors, oid_prefix="trace"):
         else:
             run.violation(key, "%s; natively: %s" % (what, m.group(1)[:300]), path)
             run.ob(oid, "fail", note=m.group(1)[:200], **common)
+    if "MarkAndSweepContext" in visitors:
+        order_obligation(run, open(out).read(), wsdir, root, env, dump_s)
     for v in visitors:
         if v not in seen:
             run.ob("%s:%s" % (oid_prefix, v), "inconclusive", reason="visitor not found in the MIR dump", engine="mir-smt")
@@ -76,6 +78,17 @@ def obligations(run, visitors, oid_prefix="trace"):
 def replay(pid, payload, path):
     wsdir = ws.prepare("tracereplay", [])
     root = os.path.dirname(wsdir)
+    if payload.get("kind") == "order":
+        shutil.copy(os.path.join(ws.VERIF, "harness", "arity_replay.rs"), os.path.join(wsdir, "crates", "steel-core", "tests", "verif_arity_replay.rs"))
+        p = subprocess.run(["cargo", "test", "--offline", "-p", "steel-core", "--no-default-features", "--features", ws.FEATURES,
+                            "--test", "verif_arity_replay", "--target-dir", os.path.join(root, "tn"), "--", "order_replay", "--exact", "--nocapture"],
+                           cwd=wsdir, env=dict(os.environ), capture_output=True, text=True)
+        m = re.search(r"OBSERVED: (.*)", p.stdout + p.stderr)
+        print("observed:", m.group(1) if m else "not reproduced")
+        if m:
+            print("VIOLATION property=%s replay=%s" % (pid, path))
+            return 1
+        return 0
     shutil.copy(os.path.join(ws.VERIF, "harness", "arity_replay.rs"), os.path.join(wsdir, "crates", "steel-core", "tests", "verif_arity_replay.rs"))
     p = subprocess.run(["cargo", "test", "--offline", "-p", "steel-core", "--no-default-features", "--features", ws.FEATURES,
                         "--test", "verif_arity_replay", "--target-dir", os.path.join(root, "tn"), "--", ("recycler_replay" if payload.get("visitor") == "GlobalSlotRecycler" else "trace_replay"), "--exact", "--nocapture"],
@@ -86,3 +99,53 @@ def replay(pid, payload, path):
         print("VIOLATION property=%s replay=%s" % (pid, path))
         return 1
     return 0
+
+
+def order_obligation(run, mir_text, wsdir, root, env, dump_s):
+    """E3e: every call of Heap::mark_and_sweep_new is dominated by the reset of both slot lists"""
+    import p_order
+    oid = "order:mark-bits-reset-before-marking"
+    t0 = time.time()
+    try:
+        res = p_order.analyse(mir_text)
+    except Exception as ex:
+        run.ob(oid, "inconclusive", reason="extraction failed: %s" % str(ex)[-300:], engine="mir-smt")
+        return
+    common = dict(engine="mir-smt/z3", wall_s=round(time.time() - t0, 1), solver_s=round(sum(r["dt"] for r in res), 3), solver_checks=len(res))
+    run.samples.append({"engine": "mir-smt", "query": "exists a control-flow path from the entry of F to its call of Heap::mark_and_sweep_new that does not pass a call of mark_all_unreachable on the given slot list (least-fixpoint reachability with a ranking, z3)",
+                        "marking call sites": sorted({r["function"].split("::")[-1] for r in res}), "queries": len(res)})
+    run.functions.append("values::closed::Heap::{value_collection, vector_collection, allocate_vector_iter, ...}: order of mark_all_unreachable and mark_and_sweep_new (MIR control flow)")
+    if len(res) < 4 or any(r["witness"] != "sat" for r in res):
+        run.ob(oid, "inconclusive", reason="vacuous: %d queries, marking call not reachable in the extracted control flow" % len(res), **common)
+        return
+    if any(r["res"] == "error" for r in res):
+        run.ob(oid, "inconclusive", reason="solver error", **common)
+        return
+    bad = [r for r in res if r["res"] == "sat"]
+    if not bad:
+        run.ob(oid, "pass", nonvacuous=True, note="%d marking call sites: each is dominated by the reset of both slot lists" % (len(res) // 2), **common)
+        return
+    what = "; ".join("%s starts a marking pass on a path that has not reset the mark bits of the %s" % (r["function"].split("::")[-1], r["reset"]) for r in bad)
+    try:
+        shutil.copy(os.path.join(ws.VERIF, "harness", "arity_replay.rs"), os.path.join(wsdir, "crates", "steel-core", "tests", "verif_arity_replay.rs"))
+        p = subprocess.run(["cargo", "test", "--offline", "-p", "steel-core", "--no-default-features", "--features", ws.FEATURES,
+                            "--test", "verif_arity_replay", "--target-dir", os.path.join(root, "tn"), "--", "order_replay", "--exact", "--nocapture"],
+                           cwd=wsdir, env=env, capture_output=True, text=True, timeout=2400)
+        m = re.search(r"OBSERVED: (.*)", p.stdout + p.stderr)
+    except Exception as ex:
+        run.ob(oid, "inconclusive", reason="replay failed: %s" % str(ex)[-300:], **common)
+        return
+    if not m:
+        run.ob(oid, "inconclusive", reason="solver: %s; not reproduced by the replay program" % what, **common)
+        return
+    d = os.path.join(ws.VERIF, "replays", run.pid)
+    os.makedirs(d, exist_ok=True)
+    path = os.path.join(d, "order_mark_bits.json")
+    json.dump({"property": run.pid, "kind": "order", "what": what, "observed": m.group(1), "how": "./check %s --replay <this file>" % run.pid}, open(path, "w"), indent=1)
+    key = "order:marking-without-reset"
+    if run.is_known(key):
+        run.known_hit(key, run.known[(run.pid, key)] + " -- " + m.group(1)[:200])
+        run.ob(oid, "known", nonvacuous=True, **common)
+    else:
+        run.violation(key, "%s; natively: %s" % (what, m.group(1)[:300]), path)
+        run.ob(oid, "fail", note=m.group(1)[:200], **common)
